@@ -11,7 +11,7 @@ CLAIMED = {
              "exactly that many and never retransmits afterwards, follows the T,2T,..,half schedule, reports a remainder "
              "<= the wait in force and 0 from the deadline on. The model is tied to the current source by a differential "
              "run of the real stun_timer_* functions under an interposed clock, and the property predicate is also "
-             "evaluated directly on the implementation's outputs. Agent-level abandonment count is tied by simulation only.",
+             "evaluated directly on the implementation's outputs. Agent-level abandonment count is tied by simulation only. Additionally, theorems about an effect-dominance skeleton of the pacing-timer callback priv_conn_check_tick_agent_locked that tools/extract_flow.py REGENERATES from the source on every run (deep embedding + verified reachability analysis in Nice/Model/Flow.lean, evaluated by the kernel): the timer is stopped only in a tick in which no request was sent and no stream reported work.",
         note="Trusted: Lean kernel (+propext, Classical.choice, Quot.sound), the hand-written Timer model and the "
              "kern_drv correspondence harness, clang/ASan/UBSan build of /repo. Hypothesis: T*2^(N-1) < 2^32.",
         technique="Lean 4 proof (induction over poll sequences) + differential correspondence of model vs real timer.c",
@@ -77,7 +77,7 @@ CLAIMED = {
              "Tied by virtual-time simulation of real agents: blackouts of every direction/duration, revocation before selection / "
              "during signalling / at READY, lossy consent checks, idle sessions; observed failure instants must lie in the proved "
              "window, the send API must return PERMISSION_DENIED exactly then, revocation must produce 403s; the keepalive gap "
-             "(25 s / ~6 s) is observed, not proved.",
+             "(25 s / ~6 s) is observed, not proved. Additionally, theorems about an effect-dominance skeleton of nice_agent_send_messages_nonblocking_internal that tools/extract_flow.py REGENERATES from the source on every run (deep embedding + verified reachability analysis in Nice/Model/Flow.lean, evaluated by the kernel): on every path (datagram, RFC 4571 frames, pseudo-TCP) data reaches a transport only with a selected pair and the consent flag set.",
         note="Trusted: Lean kernel, hand-written Consent kernels, sim_drv virtual clock/network; timers assumed to fire at or "
              "after their due time with small lateness.",
         technique="Lean 4 proof of timing kernels + virtual-time simulation oracle against the proved window",
@@ -146,7 +146,9 @@ CLAIMED = {
              "recorded as known finding K3. Tied by simulation: a real agent gathers against scripted STUN/TURN servers (drop, "
              "duplicate, late, errors, garbage, foreign txid, IPv6, 401-then-auth, unauthenticated success, 438, 300) with loss; "
              "oracles: one gathering-done, within the bound for finite scripts, host candidate per address, every reflexive/relayed "
-             "candidate supplied by a matched success answer, each announced once.",
+             "candidate supplied by a matched success answer, each announced once. Additionally theorems about skeletons REGENERATED from "
+             "the source on every run: the accounting skeleton of priv_discovery_tick_unlocked (completion only when every item is done) "
+             "and the effect-dominance skeleton of priv_map_reply_to_relay_request (a 438 answer never ends an item).",
         note="Trusted: Lean kernel, Gather abstraction (coarser than discovery.c), sim_drv scripted servers built with libnice's STUN code.",
         technique="Lean 4 proof on the gathering abstraction (incl. proved negation) + simulation against scripted servers",
         design="5/C20"),
@@ -158,7 +160,7 @@ CLAIMED = {
              "paired simulations of real agents with the same seed, with and without an off-path attacker injecting 40-80 forged "
              "datagrams (all STUN classes/methods, missing/truncated/empty/over-long/wrong-key M-I, forged responses/487/403, role "
              "flipping, RTP, spoofed and foreign sources) from gathering to READY: per-component application traces must be equal, "
-             "replies to the attacker limited to 400/401/420, attacker payloads from unvalidated sources never delivered.",
+             "replies to the attacker limited to 400/401/420, attacker payloads from unvalidated sources never delivered. Additionally, theorems about an effect-dominance skeleton of conn_check_handle_inbound_stun and of agent_recv_message_unlocked that tools/extract_flow.py REGENERATES from the source on every run (deep embedding + verified reachability analysis in Nice/Model/Flow.lean, evaluated by the kernel): state-changing calls only under SUCCESS/FORBIDDEN, discovery/refresh agents only validate responses, control traffic is consumed, RECV_SUCCESS only after the source gate said yes.",
         note="Trusted: Lean kernel, Gate table model, C04's validation theorems, sim_drv; cryptographic unforgeability is assumed.",
         technique="Lean 4 proof of gate kernels + paired non-interference simulation of real agents",
         design="5/C03"),
